@@ -25,7 +25,7 @@ TECH = "deterministic simulation at the libc seam (LD_PRELOAD plan-driven shim),
 
 CHECKS = {
     "C01": ("exploration",
-            "Seeded search over (tree, root list, depth window, bfs/dfs) x environment (arrival order of every directory stream, DT_UNKNOWN, inode renumbering incl. a colliding second device, hash seed); "
+            "Seeded search over (tree incl. device nodes, path-syntax-like and non-UTF-8 names, root list spelled default/relative/./relative/absolute/nested/./../other from inside a root, depth window, bfs/dfs) x environment (arrival order of every directory stream, DT_UNKNOWN, inode renumbering incl. a colliding second device, hash seed); "
             "the whole real binary runs; oracle = reference walk + bfs/dfs order clauses over the recorded row history; both traversal modes per case.",
             "No faults here (C17). " + TRUST, "DESIGN.md section 5 C01"),
     "C04": ("exploration",
@@ -36,7 +36,7 @@ CHECKS = {
             "DESIGN.md section 5 C04"),
     "C05": ("exploration",
             "Seeded search over (tree with ties and string-vs-numeric traps, 1-3 keys asc/desc, positional/explicit, selected or not) x arrival order classes incl. key-ascending/descending x hash seed; "
-            "oracle = conservation against fselect's own unordered run + pairwise sortedness under the documented typing, keys taken from the simulator's answer sheet.",
+            "keys incl. 64-bit answers within one f64 ulp, DST-hour mtimes, numeric functions of dates; oracle = conservation against fselect's own unordered run + pairwise sortedness under the documented typing over fselect's own key values (exact integers).",
             TRUST, "DESIGN.md section 5 C05"),
     "C06": ("exploration",
             "Per (world, query, E): one unlimited run (M rows), then limit N for EVERY N in 0..M+2 under two different arrival orders; filtered/ordered/multi-root/bfs/dfs/archives; "
@@ -44,24 +44,27 @@ CHECKS = {
             "Exhaustive in N per sampled case only. " + TRUST, "DESIGN.md section 5 C06"),
     "C08": ("exploration",
             "Partitions live in a HashMap with RandomState: the shim owns getrandom, so each case is run under several hash seeds and arrival orders; oracle = one row per distinct key, conservation of COUNT/SUM against the ungrouped query, "
-            "each group equal to the ungrouped aggregate restricted to key = value, sortedness under ORDER BY for every seed.",
+            "each group equal to the ungrouped aggregate restricted to key = value, sortedness under ORDER BY for every seed, and the ORDER BY order independent of the hash seed; key values that collide when joined with a separator.",
             TRUST, "DESIGN.md section 5 C08"),
     "C13": ("exploration",
             "Simulated wall clock (instants around local midnight, DST days, leap day, year end; frozen and ticking) x time zone x file times on the interval-edge grid; oracle = closed-interval model in the same zone (zoneinfo); "
             "trichotomy, complement, relative literals as whole local days, modified column formatting.",
             "A clock jumping across midnight mid-run and zones whose DST switch deletes local midnight are informational only. " + TRUST, "DESIGN.md section 5 C13"),
     "C17": ("fault_enumeration",
-            "Core target. A: 1-3 directories made unlistable by opendir/realpath errors, vanish / replaced-by-file races and mid-stream readdir errors, with a fault-free control run; "
-            "B: open errors and read errors at byte offsets, vanish, short reads, FIFO without writer, relational to the fault-free run incl. aggregates over readable data; "
-            "C: EVERY stdout close offset 0..L per sampled (world, query, six formats, four result paths) plus short-write schedules, prefix law + no crash + status in {0,1}.",
+            "Core target. A: 1-3 directories made unlistable by opendir/realpath errors, vanish / replaced-by-file races, mid-stream readdir errors and an unsearchable parent (every access through it refused), with a fault-free control run "
+            "and a model-driven requirement that an unenterable directory is reported, never skipped silently; "
+            "B: open errors and read errors at byte offsets, lstat failures, vanish before/after the first lstat, unreadable link text, short reads, FIFO without writer, relational to the fault-free run incl. aggregates over readable data; "
+            "C: EVERY stdout close offset 0..L per sampled (world, query, six formats, four result paths) plus short-write schedules, prefix law + no crash + status in {0,1}; "
+            "D: alignment sweep - the stream is shifted byte by byte (44 shifts) against std's 1 KiB stdout buffer, each with close offsets around the buffer boundaries.",
             "Fault positions are sampled; close offsets are exhaustive per sampled case up to a length bound, sampled around 1 KiB multiples above it. xattr faults, stderr closure, ENOSPC, EINTR, allocation failure are out of scope. " + TRUST,
             "DESIGN.md section 5 C17"),
     "C18": ("exploration",
             "Seeded search over link graphs (relative/absolute targets, to files, dirs inside/outside/above the root, ancestors, self-links, mutual pairs, chains, dangling) x root spelling x cwd x bfs/dfs x arrival order "
-            "(which path reaches a real directory first) x DT_UNKNOWN x inode numbering; termination decided by a step budget on simulated events; oracle = reachability model over real directories, exactly-once by real identity.",
+            "(which path reaches a real directory first) x DT_UNKNOWN x inode numbering, links also inside the sibling tree, chains across directories, optionally two `symlinks` roots in one query; termination decided by a step budget on simulated events; "
+            "oracle = reachability model over real directories, exactly-once by real identity.",
             "With a depth window only termination/once/off are asserted. " + TRUST, "DESIGN.md section 5 C18"),
     "C19": ("fault_enumeration",
-            "Fault-free: member rows against a zipfile model, ordinary rows relational to the same query without `archives`, LIMIT x arrival order. Faults: EVERY truncation length and EVERY single-byte flip of the central directory / end record of small archives, "
+            "Fault-free: member rows against a zipfile model (incl. stored times in DST-skipped/repeated hours, simulated clock on the 29th-31st), ordinary rows relational to the same query without `archives`, WHERE/ORDER BY/LIMIT and their combinations. Faults: EVERY truncation length and EVERY single-byte flip of the central directory / end record of small archives, "
             "open/read errors at offsets during parsing, short-read schedules, vanish between readdir and open; oracle = other rows untouched, status in {0,1}, no crash, step budget.",
             "Exhaustive per sampled archive only. " + TRUST, "DESIGN.md section 5 C19"),
 }
